@@ -13,6 +13,8 @@ def run(ctx: Ctx) -> None:
     t17_regularisers.run_regularisers(ctx)
     t17_regularisers.run_lame(ctx)
     t17_regularisers.run_inverse_consistency(ctx)
+    t17_regularisers.run_module_values(ctx)
+    ctx.floor("T17.module-values", 1)
     ctx.floor("T17.values", 2)
     ctx.floor("T10.lame", 8)
     ctx.floor("T17.inverse-consistency", 4)
